@@ -124,11 +124,22 @@ def run(ctx):
                 'add_constant, csc/csr: exact comparison of the canonical triples (sorted, duplicates summed; identical index structure '
                 'when no constant is added); (d) full pipeline AssembleStiffness/Mass/Poisson (1e-9) incl. probes A@v, A.T@v on grids '
                 'up to 4x4x3; (e) malformed stream: exception class only. non-trivial = grid with >= 2 elements or an element-matrix '
-                'case; distinct by all parameters')
+                'case; distinct by all parameters; (f) histories (c08_hist.py, Model/AsmHist.v): 8 deterministic scenarios on every seed + random ones: '
+                'several Assemble* modules (general/stiffness/mass/Poisson, ndof 1..3, different and equal bc sets, bcdiagval default/int/'
+                'float/complex, add_constant none/int/float/complex in csc/csr/coo/bsr/dense form, every accepted matrix_type: csc/csr/coo/bsr '
+                '_matrix and _array and a user callable) on ONE shared DomainDefinition object (and a second equal one) and one shared '
+                'input signal, built and evaluated in interleaved order, earlier modules re-evaluated after later ones exist and after x '
+                'was re-assigned (also with another dtype kind int/float/complex, strided views), shared element-matrix objects, Fortran '
+                'order; every response is compared with `arun` over complex rationals (values exact / 1e-9, index structure, dtype kind); '
+                'returned matrices are held and must stay unchanged, the caller overwrites returned matrices, caller-owned arguments '
+                'must stay unchanged')
     ctx.assumptions += ['bc lists have no duplicates (the property quantifies over boundary-condition SETS; the code adds bcdiagval once per occurrence)',
                         'theorems are about exact (real) arithmetic; float rounding is tied by the exact (integer data) / 1e-9 relative comparison only',
-                        'matrix_type: scipy csc_matrix / csr_matrix (the documented ones)',
-                        'add_constant: scipy sparse matrices in the structured stream',
+                        'matrix_type: csc/csr in the single-module stream; csc/csr/coo/bsr (matrix and array classes) and a user callable '
+                        'obeying the documented constructor protocol in the history stream (lil/dok/dia raise in the scipy constructor)',
+                        'add_constant: scipy sparse matrices (single-module stream), sparse or dense ndarray of kind int/float/complex (histories); '
+                        'a scalar constant raises NotImplementedError in scipy and is outside the stream',
+                        'dtype kinds int64 / float64 / complex128 (single precision, bool and object arrays are outside the stream)',
                         '1-D domains are outside the property']
     ctx.trusted += ['Print Assumptions: real-number theorems rely on the Coq stdlib Reals axioms (ClassicalDedekindReals.sig_forall_dec, '
                     'sig_not_dec, FunctionalExtensionality.functional_extensionality_dep); list/Z theorems are closed',
